@@ -64,12 +64,17 @@ Lemma retime_fold_log c l : forall s,
 Proof.
   induction l as [|e l IH]; intros s; simpl; [repeat split|].
   destruct (IH (push s (b2s (n_tcs s) c (e_beats e)) c (e_rid e) (e_beats e))) as (a & b & d & f & g & h).
-  repeat split; congruence.
+  repeat split; [rewrite a|rewrite b|rewrite d|rewrite f|rewrite g|rewrite h]; reflexivity.
 Qed.
 Lemma retime_proj st i :
   n_log (retime st i) = n_log st /\ n_routs (retime st i) = n_routs st /\ n_tcs (retime st i) = n_tcs st
   /\ n_score (retime st i) = n_score st /\ n_scnt (retime st i) = n_scnt st /\ n_mtime (retime st i) = n_mtime st.
-Proof. unfold retime. apply retime_fold_log. Qed.
+Proof.
+  unfold retime.
+  destruct (retime_fold_log (CTempo i) (filter (is_clock (CTempo i)) (n_q st))
+              (set_q st (filter (fun e => negb (is_clock (CTempo i) e)) (n_q st)))) as (a & b & d & f & g & h).
+  repeat split; [rewrite a|rewrite b|rewrite d|rewrite f|rewrite g|rewrite h]; reflexivity.
+Qed.
 
 (* ---- induction over the primitive operations of a segment ---------------- *)
 Section RunInd.
@@ -176,9 +181,9 @@ Lemma tempo_log_ext rt qk org T st i v : log_ext rt org T st (fst (nrt_set_tempo
 Proof.
   unfold nrt_set_tempo. destruct (nth_error (n_tcs st) i).
   - destruct (tc_set_tempo t T v).
-    + simpl. eapply log_ext_one; [|simpl; reflexivity]. simpl.
+    + simpl. eapply log_ext_one with (ev := EvTempo org i v true); [|simpl; reflexivity]. simpl.
       destruct rt; [reflexivity|]. destruct (qk_tempo_frozen qk); [reflexivity|].
-      f_equal. apply retime_proj.
+      f_equal. match goal with |- n_log (retime ?s ?j) = _ => destruct (retime_proj s j) as [HH _]; rewrite HH end. reflexivity.
     + simpl. eapply log_ext_one; [reflexivity|simpl; auto].
   - simpl. eapply log_ext_one; [reflexivity|simpl; auto].
 Qed.
